@@ -338,6 +338,8 @@ class ExprMixin:
             q = abs(a) // abs(b)
             return q if (a >= 0) == (b > 0) else -q
         if is_sym(a) or is_sym(b):
+            if _sym._isnan(a) or _sym._isnan(b):
+                return math.nan
             return (a if is_sym(a) else Sym(_sym.zreal(a))) / b
         cdouble = (ta == "double" or tb == "double")
         if isinstance(a, np.ndarray) or isinstance(b, np.ndarray):
